@@ -24,6 +24,9 @@ CLAIMED["C12"] = dict(engine="KeyAuthority", technique="TLC model checking of Ke
 CLAIMED["C03"] = dict(engine="KeyAuthority", technique="TLC model checking of KeyAuthority.tla (issued set) + replay of emitted bootstrap/rotate/endorse histories on the real pipeline with re-verification after every step",
    text="In the model every endorsement ever issued stays verifiable under the root in every later state (rotations, failed rotations, crashes); TLC-emitted histories bootstrap.(rotate|endorse)* are executed on the real commands and endorse.VirtualFirmware with seeded requests, and after every step every endorsement produced so far is verified with verify.Endorsement at both ends of and inside the validity window, each listed measurement for its configuration, and the documented openssl flow is redone in Go over the inspect outputs.",
    note="Trusted: TLC, crypto/rsa, crypto/x509, protobuf. Requests are seeded samples per history step, not exhaustive.", ref="5/C03")
+CLAIMED["C01"] = dict(engine="Verify", technique="TLC model checking of the decision table Verify.tla (126000 rows) + replay of every row on real keys, certificates, signatures and attestations through every entry point",
+   text="Verify.tla transcribes verify.EndorsementProto check by check and every entry point that wraps it; TLC proves on all rows (payload x signature x certificate x roots x time x provenance x entry point) that accept implies a valid PSS/SHA-256 signature by the carried certificate's key and a chain to the caller's roots at the caller's time; every row is realised with real RSA material and executed on the library functions, the SNP validator closure, SevValidate, TdxValidate and the three CLI commands; an independent rsa.VerifyPSS + x509.Verify oracle cross-checks the specification's classification.",
+   note="Trusted: TLC, crypto/rsa, crypto/x509; forgeries outside the listed classes are not enumerated (thorough adds nothing beyond the class product).", ref="5/C01")
 PENDING = {}
 import os
 props=[json.loads(l) for l in open('/verif/properties.jsonl')]
@@ -42,7 +45,7 @@ m={"version":1,
  "setup_cmd":"cd /verif/harness && GOFLAGS=-mod=mod GOWORK=off GOPROXY=off GOSUMDB=off GOTOOLCHAIN=local go build -tags verif -o /verif/bin/vcheck ./cmd/vcheck",
  "hooks":{"guard":"verif","enable":"go build -tags verif (the harness module replaces both repository modules with /repo and is compiled from the working tree on every check)",
    "baseline_off_cmd":"/verif/baseline_off.sh","source_commits":json.load(open('/verif/hook_commits.json')) if os.path.exists('/verif/hook_commits.json') else [],"add_only":True},
- "engines":[{"name":"KeyAuthority","path":"spec/KeyAuthority.tla","serves_properties":["C10","C11","C12","C03"],"kind_free_text":"TLA+ state machine of key store + CA store with bootstrap/rotate/wipeout/endorse, faults and crashes; trace spec spec/Trace_KeyAuthority.tla; Go binding in harness/ka"},{"name":"ManifestIndex","path":"spec/ManifestIndex.tla","serves_properties":["C13"],"kind_free_text":"TLA+ transcription of the manifest merge rules; closure + per-transition replay; Go binding in harness/ec/manifest.go"},{"name":"EndorseCommit","path":"spec/EndorseCommit.tla","serves_properties":["C14","C15"],"kind_free_text":"TLA+ state machine of sign + commit retry loop; TLC exhaustive + behaviour emission + trace validation (spec/Trace_EndorseCommit.tla); Go binding in harness/ec"}],
+ "engines":[{"name":"Verify","path":"spec/Verify.tla","serves_properties":["C01"],"kind_free_text":"decision-table specification of the authenticity checks; Go binding in harness/rp/c01.go"},{"name":"KeyAuthority","path":"spec/KeyAuthority.tla","serves_properties":["C10","C11","C12","C03"],"kind_free_text":"TLA+ state machine of key store + CA store with bootstrap/rotate/wipeout/endorse, faults and crashes; trace spec spec/Trace_KeyAuthority.tla; Go binding in harness/ka"},{"name":"ManifestIndex","path":"spec/ManifestIndex.tla","serves_properties":["C13"],"kind_free_text":"TLA+ transcription of the manifest merge rules; closure + per-transition replay; Go binding in harness/ec/manifest.go"},{"name":"EndorseCommit","path":"spec/EndorseCommit.tla","serves_properties":["C14","C15"],"kind_free_text":"TLA+ state machine of sign + commit retry loop; TLC exhaustive + behaviour emission + trace validation (spec/Trace_EndorseCommit.tla); Go binding in harness/ec"}],
  "checks":checks,"not_applicable":na,
  "notes":"All checks: ./check <id> <tier> rebuilds harness/cmd/vcheck from /repo's working tree with -tags verif. Exit 2 = infrastructure error (never a verdict)."}
 json.dump(m,open('/verif/MANIFEST.json','w'),indent=1)
